@@ -73,7 +73,7 @@ func arrayDefineOwnProperty(obj *object, name string, descriptor property, throw
 		}
 		newLength := arrayUint32(obj.runtime, newLengthValue)
 		descriptor.value = uint32Value(newLength)
-		if newLength > length {
+		if newLength >= length {
 			return objectDefineOwnProperty(obj, name, descriptor, throw)
 		}
 		if !lengthProperty.writable() {
